@@ -41,6 +41,38 @@ CLAIMS['C04'] = dict(
     '(guard dominance), def-use index binding, CAS identity certificates',
     engine='E3-causal')
 
+CLAIMS['C06'] = dict(
+    category='other',
+    text='Both Doerfler functions are matched against the minimal-prefix '
+    'loop schema (descending order, mark->accumulate->test->break, '
+    'cumsum >= theta^2*total non-strict, total over the whole array, '
+    'element/contribution index binding, axis tags from indicator column to '
+    'refinement loop) and the refinement loops are shown to iterate '
+    'provably-leaf collections (S1/S2/S3) without skipping.  Decides the '
+    'prefix and marked-directions clauses for all inputs; not the '
+    'minimality of the closure.',
+    design_ref='DESIGN.md section 3 E6 (R-mark, R-stale), section 4 C06',
+    note='Trusted: ast, sympy normal form of the threshold, paper argument '
+    'A.2.  Not decided: smallest 1-irregular refinement / tie independence.',
+    technique='loop-schema matching on the AST + handle-provenance '
+    '(staleness) abstract interpretation',
+    engine='E6-mesh')
+CLAIMS['C19'] = dict(
+    category='other',
+    text='refine_grading: handle provenance of both refinement loops '
+    '(level-sorted fresh snapshot; pre-pass snapshot re-resolved through '
+    '.children), marking conditions are the exact non-strict complements of '
+    'the window in monomial normal form, each list flows to the refinement '
+    'of its axis, the sweep repeats while anything is marked.  Decides '
+    '"without error" w.r.t. stale handles and "every leaf in the window on '
+    'exit"; termination is not decided.',
+    design_ref='DESIGN.md section 3 E6 (R-stale, R-window), section 4 C19',
+    note='Trusted: ast, sympy, paper argument A.2.  Not decided: '
+    'termination.',
+    technique='handle-provenance abstract interpretation + monomial normal '
+    'form of the marking conditions',
+    engine='E6-mesh')
+
 PENDING = 'rule set not yet implemented in this build (see DESIGN.md Appendix F for the order)'
 NA = {
     'C13':
@@ -57,6 +89,9 @@ ENGINES = [
      'evidence, known findings, exit codes'),
     ('E1-tables', 'stbem_static/tables.py',
      'literal quadrature tables: moments in interval arithmetic'),
+    ('E6-mesh', 'stbem_static/stale.py',
+     'refinement-driver provenance analysis (stale.py) and mesh discipline '
+     'rules (meshrules.py)'),
     ('E3-causal', 'stbem_static/causal.py',
      'causality guards and time-difference positivity over absint.py '
      '(path facts, Fourier-Motzkin entailment); kernels.py CAS certificates; '
